@@ -51,6 +51,7 @@ def run(rep, tier, seed, replay):
     from props import c13
     direct = [c for c in walklib.gen_cases(seed + 3, n * 2, stack=c13.filter_stack, bounds="none", mode="p", link="f") if c.labels["base"] in ("root", "subdir")]
     direct += c13.followed_link_cases(seed + 6, n * 2)
+    direct += [c for c in walklib.gen_cases(seed + 8, n, stack=c13.same_dir_stack, bounds="none", mode="p", link="f") if c.labels["base"] in ("root", "subdir")]
     if replay is not None:
         direct = []
     walklib.run_cases(cases + direct)
